@@ -56,8 +56,9 @@ from __future__ import annotations
 import ast
 from typing import Dict, List, Optional, Set, Tuple
 
-from ..cfg import cfg_of, origins
+from ..cfg import atoms, cfg_of, origins
 from ..flowutil import attr_chain, param_origin
+from ..idioms import conditions_at
 from ..index import AnalysisError, FuncNode, arg_of, call_name, calls_in, last_attr, norm, short, walk_local
 from ..spacekinds import (
     ERRORS, FIXPY, MARKERS, SCHEMA_SUFFIX, TBASE, SpaceKinds, attr_path, leaves, pair_components, report_sites,
@@ -67,11 +68,92 @@ CONVERTER = "TemplatedFile.get_line_pos_of_char_pos"
 DICTFN = "TemplatedFile.source_position_dict_from_slice"
 
 
+R23E_SCOPE = (
+    "src/sqlfluff/cli/commands.py", "src/sqlfluff/cli/formatters.py", "src/sqlfluff/cli/outputstream.py", "src/sqlfluff/api/simple.py",
+    "src/sqlfluff/core/linter/linted_dir.py", "src/sqlfluff/core/linter/linting_result.py", "src/sqlfluff/core/linter/linted_file.py",
+    "src/sqlfluff/core/errors.py", "src/sqlfluff/core/rules/fix.py",
+)
+
+
+def _r23e(chk, repo) -> None:
+    """Optional fields (``end_line_no`` / ``end_line_pos`` exist only for some violations) written into a
+    scratch mapping that lives across iterations stay there for the next violation that lacks them."""
+    n_loops = n_cand = 0
+    for rel in R23E_SCOPE:
+        try:
+            m = repo.mod(rel)
+        except Exception:
+            continue
+        for q, f in m.functions():
+            loops = [l for l in walk_local(f) if isinstance(l, (ast.For, ast.While))]
+            if not loops:
+                continue
+            cfg = cfg_of(f)
+            rd = cfg.reaching()
+            for l in loops:
+                n_loops += 1
+                inside = {id(x) for b in l.body for x in ast.walk(b)}
+                # conditional subscript stores inside the loop
+                stores: Dict[str, List[ast.AST]] = {}
+                for st in [x for b in l.body for x in ast.walk(b)]:
+                    if isinstance(st, ast.Assign):
+                        for t in st.targets:
+                            if isinstance(t, ast.Subscript) and isinstance(t.value, ast.Name):
+                                # conditional = nested under an if / try / inner loop that is itself inside this loop
+                                par, cond = getattr(st, "_parent", None), False
+                                while par is not None and par is not l:
+                                    if isinstance(par, (ast.If, ast.Try, ast.IfExp)):
+                                        cond = True
+                                    par = getattr(par, "_parent", None)
+                                if cond:
+                                    stores.setdefault(t.value.id, []).append(st)
+                for name, sts in stores.items():
+                    defs = rd.defs_at(sts[0], name)
+                    if not defs or any(id(d.stmt) in inside for d in defs if d.stmt is not None):
+                        continue  # (re)created inside the loop: fresh every iteration
+                    if not all(d.kind == "assign" and (isinstance(d.value, (ast.Dict, ast.DictComp)) or (isinstance(d.value, ast.Call) and call_name(d.value) in ("dict", "OrderedDict", "collections.OrderedDict"))) for d in defs):
+                        continue
+                    n_cand += 1
+                    # emptied every iteration?
+                    cleared = any(
+                        isinstance(x, ast.Expr) and isinstance(x.value, ast.Call) and last_attr(x.value) == "clear" and isinstance(x.value.func, ast.Attribute)
+                        and isinstance(x.value.func.value, ast.Name) and x.value.func.value.id == name and x in l.body
+                        for x in l.body
+                    )
+                    if cleared:
+                        continue
+                    # whole-mapping reads inside the loop
+                    whole = []
+                    for x in [y for b in l.body for y in ast.walk(b)]:
+                        if not (isinstance(x, ast.Name) and x.id == name and isinstance(x.ctx, ast.Load)):
+                            continue
+                        par = getattr(x, "_parent", None)
+                        if isinstance(par, ast.Subscript) and par.value is x:
+                            continue
+                        if isinstance(par, ast.Attribute) and par.attr in ("get", "setdefault", "pop", "clear", "update", "keys", "__contains__"):
+                            continue
+                        if isinstance(par, ast.Compare) and any(c is x for c in par.comparators):
+                            continue  # k in D
+                        whole.append(x)
+                    for x in whole:
+                        chk.fail(
+                            "R23e", x,
+                            f"{q}: the mapping `{name}` is created before the loop, keys are stored in it under a condition inside the loop ({short(sts[0], 50)}) and the whole mapping is "
+                            f"used here inside the loop: a record that does not set those keys inherits them from the previous record (a violation without an end position gets the previous violation's)",
+                            detail=f"{q}: per-record mapping {name} carries conditional keys across iterations",
+                        )
+    chk.count("R23e.loops_in_output_builders", n_loops)
+    chk.count("R23e.mappings_with_conditional_stores_created_outside", n_cand)
+    chk.floor("R23e.loops_in_output_builders", 20)
+
+
 def run(chk) -> None:
     repo = chk.repo
     chk.rule("RQ-space", "no position computation in the eight position-handling modules uses a rendered-space offset/slice/text where a source-space one is required or vice versa, nor a line where a column is required (kind inference from the declared slice fields)")
     chk.rule("R23a", "a violation's line/column are components 0/1 of the marker's source_position(), which converts the START of the marker's SOURCE slice with source=True; error subclasses pass the marker of the segment they store")
     chk.rule("R23b", "serialised offsets and line/column come from the same end of the same slice through one converter call; fix serialisation copies line, column and offset together; extra entries come from the stored segment's marker")
+    chk.rule("R23e", "a record built per violation does not inherit position fields from the previous one: in the output builders no mapping created outside a loop has keys stored under a condition inside the loop while the whole mapping is copied / embedded inside that loop, unless it is emptied every iteration")
+    _r23e(chk, repo)
     sk = SpaceKinds(repo)
     sk.analyse_all()
     counts = report_sites(chk, sk, "RQ-space")
@@ -160,47 +242,61 @@ def _r23a(chk, repo) -> None:
                     continue
                 n_store += 1
                 attr = ch[1]
-                # the value stored into this attribute, as (call, component) or plain expression
-                if isinstance(tgt, ast.Tuple):
-                    comps = None
-                    if isinstance(st.value, ast.Tuple) and i < len(st.value.elts):
-                        val = st.value.elts[i]
-                        comps = pair_components(cfg, val, st)
-                    else:
-                        comps = []
-                        for e, path, kind in leaves(cfg, st.value, st):
+
+                def marker_given(e, pol):
+                    """True / False when the fact (e, pol) says a marker was / was not given; else None."""
+                    if isinstance(e, ast.Name) and param_origin(cfg, e, st) == pos:
+                        return pol
+                    if isinstance(e, ast.Compare) and len(e.ops) == 1 and isinstance(e.left, ast.Name) and param_origin(cfg, e.left, st) == pos \
+                            and isinstance(e.comparators[0], ast.Constant) and e.comparators[0].value is None:
+                        if isinstance(e.ops[0], (ast.IsNot, ast.NotEq)):
+                            return pol
+                        if isinstance(e.ops[0], (ast.Is, ast.Eq)):
+                            return not pol
+                    return None
+
+                def cases(value, extra):
+                    """[(value, components | None, extra facts)]: a conditional expression is one case per arm,
+                    each under the facts of its test (``x = a() if pos else (l, c)``)."""
+                    if isinstance(value, ast.IfExp):
+                        return cases(value.body, extra + atoms(value.test, True)) + cases(value.orelse, extra + atoms(value.test, False))
+                    if isinstance(tgt, ast.Tuple):
+                        if isinstance(value, ast.Tuple) and i < len(value.elts):
+                            return [(value.elts[i], pair_components(cfg, value.elts[i], st), extra)]
+                        comps_ = []
+                        for e, path, kind in leaves(cfg, value, st):
                             if kind == "expr" and isinstance(e, ast.Call) and not path:
-                                comps.append((e, i))
+                                comps_.append((e, i))
                             else:
-                                comps = None
+                                comps_ = None
                                 break
-                        val = st.value
-                else:
-                    val = st.value
-                    comps = pair_components(cfg, val, st)
-                conds = cfg.conditions(st)
-                pos_true = any(pol and param_origin(cfg, e, st) == pos for e, pol in conds if isinstance(e, ast.Name))
-                pos_false = any((not pol) and param_origin(cfg, e, st) == pos for e, pol in conds if isinstance(e, ast.Name))
-                if comps:
-                    good = all(
-                        _is_method_call(c, "source_position") and not c.args and param_origin(cfg, c.func.value, cfg.stmt_of(c)) == pos and idx == want_idx[attr]
-                        for c, idx in comps
-                    )
-                    what = ", ".join(f"{short(c, 50)}[{idx}]" for c, idx in comps)
-                    chk.require(
-                        good and pos_true, "R23a", st,
-                        f"violation attribute '{attr}' is taken from {what}; it must be component {want_idx[attr]} of {pos}.source_position() (source space, line first) under the test that a marker was given",
-                        detail=f"SQLBaseError.{attr} <- {pos}.source_position()[{want_idx[attr]}]",
-                    )
-                    if good and pos_true:
-                        from_marker[attr] += 1
-                else:
-                    po = param_origin(cfg, val, st) if isinstance(val, ast.Name) else None
-                    chk.require(
-                        po == attr and pos_false, "R23a", st,
-                        f"violation attribute '{attr}' is set from {short(val, 60)}: explicit coordinates must be the '{attr}' parameter and only apply when no marker was given",
-                        detail=f"SQLBaseError.{attr} <- explicit parameter when no marker",
-                    )
+                        return [(value, comps_, extra)]
+                    return [(value, pair_components(cfg, value, st), extra)]
+
+                for val, comps, extra in cases(st.value, []):
+                    conds = list(conditions_at(cfg, st)) + list(extra)
+                    pos_true = any(marker_given(e, pol) is True for e, pol in conds)
+                    pos_false = any(marker_given(e, pol) is False for e, pol in conds)
+                    if comps:
+                        good = all(
+                            _is_method_call(c, "source_position") and not c.args and param_origin(cfg, c.func.value, cfg.stmt_of(c)) == pos and idx == want_idx[attr]
+                            for c, idx in comps
+                        )
+                        what = ", ".join(f"{short(c, 50)}[{idx}]" for c, idx in comps)
+                        chk.require(
+                            good and pos_true, "R23a", st,
+                            f"violation attribute '{attr}' is taken from {what}; it must be component {want_idx[attr]} of {pos}.source_position() (source space, line first) under the test that a marker was given",
+                            detail=f"SQLBaseError.{attr} <- {pos}.source_position()[{want_idx[attr]}]",
+                        )
+                        if good and pos_true:
+                            from_marker[attr] += 1
+                    else:
+                        po = param_origin(cfg, val, st) if isinstance(val, ast.Name) else None
+                        chk.require(
+                            po == attr and pos_false, "R23a", st,
+                            f"violation attribute '{attr}' is set from {short(val, 60)}: explicit coordinates must be the '{attr}' parameter and only apply when no marker was given",
+                            detail=f"SQLBaseError.{attr} <- explicit parameter when no marker",
+                        )
     chk.count("R23a.error_position_stores", n_store)
     chk.floor("R23a.error_position_stores", 2)
     for attr, n in from_marker.items():
@@ -322,17 +418,24 @@ def _split_key(k: str) -> Optional[Tuple[str, str]]:
     return None
 
 
+def _dict_entries(n) -> Optional[Dict[str, ast.expr]]:
+    """{constant key: value} of a dict display or of ``dict(key=value, ..)``; None for anything else."""
+    if isinstance(n, ast.Dict):
+        return {k.value: v for k, v in zip(n.keys, n.values) if isinstance(k, ast.Constant) and isinstance(k.value, str)}
+    if isinstance(n, ast.Call) and isinstance(n.func, ast.Name) and n.func.id == "dict" and not n.args and all(k.arg is not None for k in n.keywords):
+        return {k.arg: k.value for k in n.keywords}
+    return None
+
+
 def _schema_keys(repo) -> Dict[str, Set[str]]:
     """prefix -> suffixes of the position dict literal (derived from the source, not frozen)."""
     g = repo.fn(TBASE, DICTFN)
     out: Dict[str, Set[str]] = {}
     for n in walk_local(g):
-        if isinstance(n, ast.Dict):
-            for k in n.keys:
-                if isinstance(k, ast.Constant) and isinstance(k.value, str):
-                    sp = _split_key(k.value)
-                    if sp:
-                        out.setdefault(sp[0], set()).add(sp[1])
+        for k in (_dict_entries(n) or {}):
+            sp = _split_key(k)
+            if sp:
+                out.setdefault(sp[0], set()).add(sp[1])
     return out
 
 
@@ -410,12 +513,12 @@ def _r23b(chk, repo) -> None:
     chk.floor("R23b.position_dict_returns", 1)
     ends_used: Dict[str, str] = {}
     for r in rets:
-        dicts = [e for e, path, kind in leaves(gcfg, r.value, r) if kind == "expr" and isinstance(e, ast.Dict) and not path]
+        dicts = [e for e, path, kind in leaves(gcfg, r.value, r) if kind == "expr" and _dict_entries(e) is not None and not path]
         if len(dicts) != len(leaves(gcfg, r.value, r)):
             chk.fail("R23b", r, f"{DICTFN} does not return a dict display whose entries can be traced", detail="position dict is a dict display")
             continue
         for d in dicts:
-            entries = {k.value: v for k, v in zip(d.keys, d.values) if isinstance(k, ast.Constant) and isinstance(k.value, str)}
+            entries = _dict_entries(d)
             for prefix, sufs in sorted(schema.items()):
                 fp = entries.get(prefix + "_file_pos")
                 ln = entries.get(prefix + "_line_no")
@@ -518,6 +621,10 @@ def _r23b(chk, repo) -> None:
             n_sf += 1
             a0 = arg_of(c, 0, sl)
             ch = attr_chain(a0) if a0 is not None else None
+            if isinstance(a0, ast.Name):
+                os_ = origins(tcfg, a0, tcfg.stmt_of(c))  # ``s = fix.source_slice`` kept in a local
+                chains = {attr_chain(o.expr) if o.kind == "expr" and not o.path and isinstance(o.expr, ast.Attribute) else None for o in os_}
+                ch = ("?", "source_slice") if chains and all(x is not None and x[-1] == "source_slice" for x in chains) else None
             chk.require(
                 bool(ch) and ch[-1] == "source_slice", "R23b", c,
                 f"LintFix.to_dict serialises {short(a0, 50) if a0 is not None else 'nothing'} as a source position; it must be a source_slice",
@@ -551,7 +658,7 @@ def _r23b(chk, repo) -> None:
         for c in calls_in(fn):
             if isinstance(c.func, ast.Name) and c.func.id == ep.name:
                 n_x += 1
-                a0 = c.args[0] if c.args else None
+                a0 = arg_of(c, 0, eparam) if eparam else (c.args[0] if c.args else None)
                 chk.require(
                     a0 is not None and attr_chain(a0) == ("self", "segment"), "R23b", c,
                     f"{q} extracts the extra position entries from {short(a0, 50) if a0 is not None else 'nothing'}, not from self.segment (the segment whose marker gave line/column)",
@@ -562,25 +669,34 @@ def _r23b(chk, repo) -> None:
     # hoisting from a fix
     lt = repo.fn(ERRORS, "SQLLintError.to_dict")
     lcfg = cfg_of(lt)
+    # copies of one arm (statements of the same block, or one loop over the keys) are judged together
+    arms: Dict[tuple, list] = {}
     for st, dst, src, pairs in _dict_copies(lcfg, lt):
         chk.count("R23b.hoist_sites")
+        parent = getattr(st, "_parent", None)
+        while isinstance(parent, (ast.For,)):
+            parent = getattr(parent, "_parent", None)
+        arms.setdefault((id(parent), _arm_of(st, parent), norm(dst), norm(src)), []).append((st, pairs))
+    for items in arms.values():
+        first = items[0][0]
         guard_eq: Set[str] = set()
-        for e, pol in lcfg.conditions(st):
+        for e, pol in conditions_at(lcfg, first):
             if pol and isinstance(e, ast.Compare) and len(e.ops) == 1 and isinstance(e.ops[0], ast.Eq):
                 l, r_ = e.left, e.comparators[0]
                 if isinstance(l, ast.Subscript) and isinstance(r_, ast.Subscript) and isinstance(l.slice, ast.Constant) and isinstance(r_.slice, ast.Constant) and l.slice.value == r_.slice.value:
                     guard_eq.add(l.slice.value)
         hoisted: Dict[str, Set[str]] = {}
-        for k1, k2 in pairs:
-            chk.require(k1 == k2, "R23b", st, f"entry '{k1}' of the violation is filled from the fix's '{k2}'", detail=f"hoist {k1} <- {k2}")
-            sp = _split_key(k1)
-            if sp:
-                hoisted.setdefault(sp[0], set()).add(sp[1])
+        for st, pairs in items:
+            for k1, k2 in pairs:
+                chk.require(k1 == k2, "R23b", st, f"entry '{k1}' of the violation is filled from the fix's '{k2}'", detail=f"hoist {k1} <- {k2}")
+                sp = _split_key(k1)
+                if sp:
+                    hoisted.setdefault(sp[0], set()).add(sp[1])
         for prefix, sufs in sorted(hoisted.items()):
             have = sufs | {sp[1] for k in guard_eq for sp in [_split_key(k)] if sp and sp[0] == prefix}
             need = schema.get(prefix, set())
             chk.require(
-                have >= need, "R23b", st,
+                have >= need, "R23b", first,
                 f"only {sorted(sufs)} of the {prefix}_* entries are taken over from the fix (equal by guard: {sorted(have - sufs)}); missing {sorted(need - have)}: offset and line/column of the violation would come from different places",
                 detail=f"hoist {prefix}_* entries together",
             )
@@ -740,6 +856,218 @@ VARIANTS = [
         "            yield FixPatch(\n                source_slice=source_slice,\n                templated_slice=templated_slice,\n                patch_category=\"end_point\",\n                fixed_raw=insert_buff,\n                templated_str=templated_file.templated_str[templated_slice],\n                source_str=templated_file.source_str[source_slice],\n            )\n",
         "            yield _end_point_patch(source_slice, templated_slice, insert_buff, templated_file)\n\n\ndef _end_point_patch(src: slice, tpl: slice, raw: str, tf: TemplatedFile) -> FixPatch:\n    return FixPatch(\n        source_slice=src,\n        templated_slice=tpl,\n        patch_category=\"end_point\",\n        fixed_raw=raw,\n        templated_str=tf.templated_str[tpl],\n        source_str=tf.source_str[src],\n    )\n",
         "QUIET", None, "patch construction extracted into a helper function",
+    ),
+    # behaviour-preserving refactors: must stay quiet
+    Variant(
+        "quiet-err-init-pair-local-unpack", ERRORS,
+        '            self.line_no, self.line_pos = pos.source_position()\n',
+        '            line, col = pos.source_position()\n            self.line_no = line\n            self.line_pos = col\n',
+        "QUIET", None, 'pair unpacked into locals first',
+    ),
+    Variant(
+        "quiet-err-init-is-not-none", ERRORS,
+        '        if pos:\n            self.line_no, self.line_pos = pos.source_position()\n',
+        '        if pos is not None:\n            self.line_no, self.line_pos = pos.source_position()\n',
+        "QUIET", None, 'identity test instead of truthiness of the marker',
+    ),
+    Variant(
+        "quiet-err-init-tuple-explicit", ERRORS,
+        '            self.line_no = line_no\n            self.line_pos = line_pos\n',
+        '            self.line_no, self.line_pos = line_no, line_pos\n',
+        "QUIET", None, 'explicit coordinates stored by one tuple assignment',
+    ),
+    Variant(
+        "quiet-err-init-ifexp", ERRORS,
+        '        if pos:\n            self.line_no, self.line_pos = pos.source_position()\n        else:\n            self.line_no = line_no\n            self.line_pos = line_pos\n',
+        '        self.line_no, self.line_pos = pos.source_position() if pos else (line_no, line_pos)\n',
+        "QUIET", None, 'if/else as one conditional expression',
+    ),
+    Variant(
+        "quiet-err-init-default-then-override", ERRORS,
+        '        if pos:\n            self.line_no, self.line_pos = pos.source_position()\n        else:\n            self.line_no = line_no\n            self.line_pos = line_pos\n',
+        '        if not pos:\n            self.line_no = line_no\n            self.line_pos = line_pos\n            super().__init__(self.desc())\n            return\n        self.line_no, self.line_pos = pos.source_position()\n',
+        "QUIET", None, 'no-marker case handled first with an early return',
+    ),
+    Variant(
+        "quiet-marker-prop-unpack", MARKERS,
+        '        return self.source_position()[0]\n',
+        '        line, _ = self.source_position()\n        return line\n',
+        "QUIET", None, 'component by unpacking',
+    ),
+    Variant(
+        "quiet-marker-srcpos-positional-flag", MARKERS,
+        '            self.source_slice.start, source=True\n',
+        '            self.source_slice.start, True\n',
+        "QUIET", None, 'flag passed positionally',
+    ),
+    Variant(
+        "quiet-marker-srcpos-keyword-offset", MARKERS,
+        '        return self.templated_file.get_line_pos_of_char_pos(\n            self.source_slice.start, source=True\n        )\n',
+        '        return self.templated_file.get_line_pos_of_char_pos(\n            char_pos=self.source_slice.start, source=True\n        )\n',
+        "QUIET", None, 'offset passed by keyword',
+    ),
+    Variant(
+        "quiet-tplpos-default-flag", MARKERS,
+        '            self.templated_slice.start, source=False\n',
+        '            self.templated_slice.start, False\n',
+        "QUIET", None, 'flag passed positionally',
+    ),
+    Variant(
+        "quiet-dict-built-incrementally", TBASE,
+        '        return {\n            "start_line_no": start[0],\n            "start_line_pos": start[1],\n            "start_file_pos": source_slice.start,\n            "end_line_no": stop[0],\n            "end_line_pos": stop[1],\n            "end_file_pos": source_slice.stop,\n        }\n',
+        '        position = {\n            "start_line_no": start[0],\n            "start_line_pos": start[1],\n            "start_file_pos": source_slice.start,\n            "end_line_no": stop[0],\n            "end_line_pos": stop[1],\n            "end_file_pos": source_slice.stop,\n        }\n        return position\n',
+        "QUIET", None, 'dict through a local',
+    ),
+    Variant(
+        "quiet-dict-dict-call", TBASE,
+        '        return {\n            "start_line_no": start[0],\n            "start_line_pos": start[1],\n            "start_file_pos": source_slice.start,\n            "end_line_no": stop[0],\n            "end_line_pos": stop[1],\n            "end_file_pos": source_slice.stop,\n        }\n',
+        '        return dict(\n            start_line_no=start[0],\n            start_line_pos=start[1],\n            start_file_pos=source_slice.start,\n            end_line_no=stop[0],\n            end_line_pos=stop[1],\n            end_file_pos=source_slice.stop,\n        )\n',
+        "QUIET", None, 'dict(...) call instead of a display',
+    ),
+    Variant(
+        "quiet-to-source-dict-locals", MARKERS,
+        '        return self.templated_file.source_position_dict_from_slice(self.source_slice)\n',
+        '        tf = self.templated_file\n        return tf.source_position_dict_from_slice(source_slice=self.source_slice)\n',
+        "QUIET", None, 'receiver through a local, keyword argument',
+    ),
+    Variant(
+        "quiet-fix-adjust-update", FIXPY,
+        '            _src_loc["end_line_no"] = _src_loc["start_line_no"]\n            _src_loc["end_line_pos"] = _src_loc["start_line_pos"]\n            _src_loc["end_file_pos"] = _src_loc["start_file_pos"]\n',
+        '            _src_loc.update(\n                end_line_no=_src_loc["start_line_no"],\n                end_line_pos=_src_loc["start_line_pos"],\n                end_file_pos=_src_loc["start_file_pos"],\n            )\n',
+        "QUIET", None, 'three stores as one update()',
+    ),
+    Variant(
+        "quiet-fix-adjust-reordered", FIXPY,
+        '            _src_loc["end_line_no"] = _src_loc["start_line_no"]\n            _src_loc["end_line_pos"] = _src_loc["start_line_pos"]\n            _src_loc["end_file_pos"] = _src_loc["start_file_pos"]\n',
+        '            _src_loc["end_file_pos"] = _src_loc["start_file_pos"]\n            _src_loc["end_line_pos"] = _src_loc["start_line_pos"]\n            _src_loc["end_line_no"] = _src_loc["start_line_no"]\n',
+        "QUIET", None, 'stores reordered',
+    ),
+    Variant(
+        "quiet-fix-adjust-separate-ifs", FIXPY,
+        '        elif self.edit_type == "create_after":\n            # If we\'re creating _after_',
+        '        if self.edit_type == "create_after":\n            # If we\'re creating _after_',
+        "QUIET", None, 'elif as a second if',
+    ),
+    Variant(
+        "quiet-fix-source-slice-local", FIXPY,
+        '                **_position.templated_file.source_position_dict_from_slice(\n                    _source_fix.source_slice\n                ),\n',
+        '                **_position.templated_file.source_position_dict_from_slice(\n                    source_slice=_source_fix.source_slice\n                ),\n',
+        "QUIET", None, 'keyword argument',
+    ),
+    Variant(
+        "quiet-extract-position-inline", ERRORS,
+        '        position = segment.pos_marker\n        assert position\n        if position.is_literal():\n            return position.to_source_dict()\n',
+        '        assert segment.pos_marker\n        if segment.pos_marker.is_literal():\n            return segment.pos_marker.to_source_dict()\n',
+        "QUIET", None, 'marker local inlined',
+    ),
+    Variant(
+        "quiet-extract-call-local", ERRORS,
+        '            fixes=[fix.to_dict() for fix in self.fixes],\n            **_extract_position(self.segment),\n',
+        '            fixes=[fix.to_dict() for fix in self.fixes],\n            **_extract_position(segment=self.segment),\n',
+        "QUIET", None, 'keyword argument',
+    ),
+    Variant(
+        "quiet-hoist-tuple-keys", ERRORS,
+        '                for key in [\n                    "start_file_pos",\n                    "end_line_no",\n                    "end_line_pos",\n                    "end_file_pos",\n                ]:\n                    _base_dict[key] = _fix[key]\n',
+        '                for key in ("start_file_pos", "end_line_no", "end_line_pos", "end_file_pos"):\n                    _base_dict[key] = _fix[key]\n',
+        "QUIET", None, 'key list as a tuple',
+    ),
+    Variant(
+        "quiet-hoist-unrolled", ERRORS,
+        '                for key in [\n                    "start_file_pos",\n                    "end_line_no",\n                    "end_line_pos",\n                    "end_file_pos",\n                ]:\n                    _base_dict[key] = _fix[key]\n',
+        '                _base_dict["start_file_pos"] = _fix["start_file_pos"]\n                _base_dict["end_line_no"] = _fix["end_line_no"]\n                _base_dict["end_line_pos"] = _fix["end_line_pos"]\n                _base_dict["end_file_pos"] = _fix["end_file_pos"]\n',
+        "QUIET", None, 'loop over the keys unrolled',
+    ),
+    Variant(
+        "quiet-hoist-keys-local", ERRORS,
+        '                for key in [\n                    "start_file_pos",\n                    "end_line_no",\n                    "end_line_pos",\n                    "end_file_pos",\n                ]:\n                    _base_dict[key] = _fix[key]\n',
+        '                optional_keys = ["start_file_pos", "end_line_no", "end_line_pos", "end_file_pos"]\n                _base_dict.update({key: _fix[key] for key in optional_keys})\n',
+        "QUIET", None, 'keys in a local, update() with a comprehension',
+    ),
+    Variant(
+        "quiet-hoist-guard-nested", ERRORS,
+        '            if (\n                _fix["start_line_no"] == _base_dict["start_line_no"]\n                and _fix["start_line_pos"] == _base_dict["start_line_pos"]\n            ):\n',
+        '            same_line = _fix["start_line_no"] == _base_dict["start_line_no"]\n            same_col = _fix["start_line_pos"] == _base_dict["start_line_pos"]\n            if same_line and same_col:\n',
+        "QUIET", None, 'guard operands through boolean locals',
+    ),
+    Variant(
+        "quiet-lint-error-marker-local", ERRORS,
+        '        self.fixes = fixes or []\n        super().__init__(\n            description=description,\n            pos=segment.pos_marker if segment else None,\n',
+        '        self.fixes = fixes or []\n        marker = segment.pos_marker if segment else None\n        super().__init__(\n            description=description,\n            pos=marker,\n',
+        "QUIET", None, 'marker through a local',
+    ),
+    Variant(
+        "quiet-sarif-local", "src/sqlfluff/cli/commands.py",
+        '                    region["endColumn"] = violation["end_line_pos"]\n',
+        '                    end_col = violation["end_line_pos"]\n                    region["endColumn"] = end_col\n',
+        "QUIET", None, 'value through a local',
+    ),
+    Variant(
+        "quiet-native-line-local", "src/sqlfluff/cli/commands.py",
+        '                line += f"line={violation[\'start_line_no\']},"\n                line += f"col={violation[\'start_line_pos\']}"\n',
+        '                start_line, start_col = violation[\'start_line_no\'], violation[\'start_line_pos\']\n                line += f"line={start_line},col={start_col}"\n',
+        "QUIET", None, 'values through locals, one f-string',
+    ),
+    Variant(
+        "quiet-dict-offsets-locals", TBASE,
+        '        start = self.get_line_pos_of_char_pos(source_slice.start, source=True)\n        stop = self.get_line_pos_of_char_pos(source_slice.stop, source=True)\n        return {\n            "start_line_no": start[0],\n            "start_line_pos": start[1],\n            "start_file_pos": source_slice.start,\n            "end_line_no": stop[0],\n            "end_line_pos": stop[1],\n            "end_file_pos": source_slice.stop,\n        }\n',
+        '        first, last = source_slice.start, source_slice.stop\n        start = self.get_line_pos_of_char_pos(first, source=True)\n        stop = self.get_line_pos_of_char_pos(last, source=True)\n        return {\n            "start_line_no": start[0],\n            "start_line_pos": start[1],\n            "start_file_pos": first,\n            "end_line_no": stop[0],\n            "end_line_pos": stop[1],\n            "end_file_pos": last,\n        }\n',
+        "QUIET", None, "both ends of the slice read once into locals",
+    ),
+    Variant(
+        "quiet-fix-source-slice-local2", FIXPY,
+        '            _source_fix = self.edit[0].source_fixes[0]\n            return {\n                "type": self.edit_type,\n                "edit": _source_fix.edit,\n                **_position.templated_file.source_position_dict_from_slice(\n                    _source_fix.source_slice\n                ),\n',
+        '            _source_fix = self.edit[0].source_fixes[0]\n            _fix_slice = _source_fix.source_slice\n            return {\n                "type": self.edit_type,\n                "edit": _source_fix.edit,\n                **_position.templated_file.source_position_dict_from_slice(\n                    _fix_slice\n                ),\n',
+        "QUIET", None, "the source fix's slice through a local",
+    ),
+    # ---- breaking twins of the quiet spellings above ---------------------------------------------
+    Variant(
+        "explicit-coordinates-override-marker-identity-spelling", ERRORS,
+        "        if pos:\n            self.line_no, self.line_pos = pos.source_position()\n        else:\n",
+        "        if pos is not None and not line_no:\n            self.line_no, self.line_pos = pos.source_position()\n        else:\n",
+        "R23a", "SQLBaseError.__init__", "twin of quiet-err-init-is-not-none",
+    ),
+    Variant(
+        "error-init-conditional-expression-prefers-explicit", ERRORS,
+        "        if pos:\n            self.line_no, self.line_pos = pos.source_position()\n        else:\n            self.line_no = line_no\n            self.line_pos = line_pos\n",
+        "        self.line_no, self.line_pos = pos.source_position() if pos and not line_no else (line_no, line_pos)\n",
+        "R23a", "SQLBaseError.__init__", "twin of quiet-err-init-ifexp",
+    ),
+    Variant(
+        "error-init-conditional-expression-arms-swapped", ERRORS,
+        "        if pos:\n            self.line_no, self.line_pos = pos.source_position()\n        else:\n            self.line_no = line_no\n            self.line_pos = line_pos\n",
+        "        self.line_no, self.line_pos = pos.templated_position() if pos else (line_no, line_pos)\n",
+        "R23a", "SQLBaseError.__init__", "twin of quiet-err-init-ifexp: rendered position",
+    ),
+    Variant(
+        "position-dict-call-end-offset-from-start", TBASE,
+        "        return {\n            \"start_line_no\": start[0],\n            \"start_line_pos\": start[1],\n            \"start_file_pos\": source_slice.start,\n            \"end_line_no\": stop[0],\n            \"end_line_pos\": stop[1],\n            \"end_file_pos\": source_slice.stop,\n        }\n",
+        "        return dict(\n            start_line_no=start[0],\n            start_line_pos=start[1],\n            start_file_pos=source_slice.start,\n            end_line_no=stop[0],\n            end_line_pos=stop[1],\n            end_file_pos=source_slice.start,\n        )\n",
+        "R23b", "source_position_dict_from_slice", "twin of quiet-dict-dict-call",
+    ),
+    Variant(
+        "source-only-fix-local-holds-templated-slice", FIXPY,
+        '            _source_fix = self.edit[0].source_fixes[0]\n            return {\n                "type": self.edit_type,\n                "edit": _source_fix.edit,\n                **_position.templated_file.source_position_dict_from_slice(\n                    _source_fix.source_slice\n                ),\n',
+        '            _source_fix = self.edit[0].source_fixes[0]\n            _fix_slice = _source_fix.templated_slice\n            return {\n                "type": self.edit_type,\n                "edit": _source_fix.edit,\n                **_position.templated_file.source_position_dict_from_slice(\n                    _fix_slice\n                ),\n',
+        "R23b", "LintFix.to_dict", "twin of quiet-fix-source-slice-local2",
+    ),
+    Variant(
+        "lint-error-extra-position-keyword-from-fix-anchor", ERRORS,
+        "            fixes=[fix.to_dict() for fix in self.fixes],\n            **_extract_position(self.segment),\n",
+        "            fixes=[fix.to_dict() for fix in self.fixes],\n            **_extract_position(segment=self.fixes[0].anchor if self.fixes else self.segment),\n",
+        "R23b", "SQLLintError.to_dict", "twin of quiet-extract-call-local",
+    ),
+    Variant(
+        "hoist-unrolled-without-end-offset", ERRORS,
+        "                for key in [\n                    \"start_file_pos\",\n                    \"end_line_no\",\n                    \"end_line_pos\",\n                    \"end_file_pos\",\n                ]:\n                    _base_dict[key] = _fix[key]\n",
+        "                _base_dict[\"start_file_pos\"] = _fix[\"start_file_pos\"]\n                _base_dict[\"end_line_no\"] = _fix[\"end_line_no\"]\n                _base_dict[\"end_line_pos\"] = _fix[\"end_line_pos\"]\n",
+        "R23b", "SQLLintError.to_dict", "twin of quiet-hoist-unrolled",
+    ),
+    Variant(
+        "hoist-guard-local-compares-column-with-line", ERRORS,
+        "            if (\n                _fix[\"start_line_no\"] == _base_dict[\"start_line_no\"]\n                and _fix[\"start_line_pos\"] == _base_dict[\"start_line_pos\"]\n            ):\n",
+        "            same_line = _fix[\"start_line_no\"] == _base_dict[\"start_line_no\"]\n            same_col = _fix[\"start_line_pos\"] == _base_dict[\"start_line_no\"]\n            if same_line and same_col:\n",
+        "R23b", "SQLLintError.to_dict", "twin of quiet-hoist-guard-nested",
     ),
     # ---- breaking edits -------------------------------------------------------------------------
     Variant(
